@@ -62,24 +62,25 @@ def build_middlewares(specs: List[Dict[str, Any]], ev: Events, is_async: bool, p
 
         npoints = ms.get('suspend', 0)
         if is_async:
-            async def mw(request, context, handler, kind=kind, idx=idx, npoints=npoints, before=before, short=short, rewritten=rewritten, wrap=wrap):
-                before(request, context)
+            # request and context are passed positionally (their parameter names are the application's own); the next handler arrives as `handler=`
+            async def mw(rq, cx, handler, kind=kind, idx=idx, npoints=npoints, before=before, short=short, rewritten=rewritten, wrap=wrap):
+                before(rq, cx)
                 for i in range(npoints):
                     await point(f"mw{idx}#{i}")
                 if kind in ('short', 'answer-all', 'swallow'):
-                    return short(request)
+                    return short(rq)
                 if kind == 'rewrite-request':
-                    return await handler(rewritten(request), context)
-                resp = await handler(request, context)
+                    return await handler(rewritten(rq), cx)
+                resp = await handler(rq, cx)
                 return wrap(resp) if kind == 'rewrite-response' else resp
         else:
-            def mw(request, context, handler, kind=kind, before=before, short=short, rewritten=rewritten, wrap=wrap):
-                before(request, context)
+            def mw(rq, cx, handler, kind=kind, before=before, short=short, rewritten=rewritten, wrap=wrap):
+                before(rq, cx)
                 if kind in ('short', 'answer-all', 'swallow'):
-                    return short(request)
+                    return short(rq)
                 if kind == 'rewrite-request':
-                    return handler(rewritten(request), context)
-                resp = handler(request, context)
+                    return handler(rewritten(rq), cx)
+                resp = handler(rq, cx)
                 return wrap(resp) if kind == 'rewrite-response' else resp
         out.append(mw)
     return out
@@ -118,13 +119,13 @@ def build_handlers(table: Optional[Dict[str, Any]], ev: Events, is_async: bool, 
             return pjrpc.exc.JsonRpcError(code=REPLACE_BASE + n, message='replaced', data=error.code)
 
         if is_async:
-            async def h(request, context, error):
+            async def h(rq, cx, err):
                 for i in range(npoints):
                     await point(f"eh{n}#{i}")
-                return apply(request, context, error)
+                return apply(rq, cx, err)
         else:
-            def h(request, context, error):
-                return apply(request, context, error)
+            def h(rq, cx, err):
+                return apply(rq, cx, err)
         return h
 
     if table.get('generic'):
@@ -132,6 +133,10 @@ def build_handlers(table: Optional[Dict[str, Any]], ev: Events, is_async: bool, 
     for code, hss in table.get('codes', []):
         if hss:
             out[code] = [make(code, hs) for hs in hss]
+    if table.get('key_order') == 'codes-first' and None in out:
+        # the application wrote its table as {code: [...], None: [...]}: the order of the KEYS means nothing
+        generic = out.pop(None)
+        out[None] = generic
     return out
 
 
